@@ -160,12 +160,12 @@ def check_live(case, ctx):
                 cls.append("null-result")
             ctx.note({"expr": tree, "rows": rows}, nontrivial, classes=cls)
             for pos, a, e, stmt in results:
-                if a == e:
-                    if a[0] == "err":
-                        ctx.info("both-raise:" + a[1])
-                    continue
                 if a[0] == "err" and e[0] == "err" and a[1] == e[1]:
-                    ctx.info("both-raise:" + a[1])
+                    if "syntax error" in a[2] or "syntax error" in e[2]:
+                        raise Violation("C01/sqlite/syntax-error-both", f"both renderings are rejected by the backend: {a[2]}", observed=[a, e])
+                    ctx.info("both-raise:" + a[1] + ":" + a[2][:48])
+                    continue
+                if a == e:
                     continue
                 if (a[0] == "err") != (e[0] == "err"):
                     msg = a[2] if a[0] == "err" else e[2]
@@ -175,7 +175,7 @@ def check_live(case, ctx):
                 sql = str(stmt.compile(eng))
                 kind = trig[0] if trig else ("select-value-mismatch" if pos == "select" else "where-rowset-mismatch")
                 raise Violation(
-                    "C01/sqlite/" + kind,
+                    ("C01/" + kind) if trig else ("C01/sqlite/" + kind),
                     f"natural rendering and fully parenthesised rendering disagree in {pos} position: {sql!r}",
                     observed={"natural": a, "sql": sql},
                     expected={"explicit": e, "sql": str(results[0][3].compile(eng)) and str((se if pos == 'select' else we).compile(eng))},
@@ -189,8 +189,166 @@ def _live_cases(draw, max_depth):
     return {"expr": draw(X.trees(max_depth=max_depth)), "rows": draw(X.rows(max_rows=5, min_rows=2))}
 
 
+# ------------------------------------------------------------------ grammar tier
+GRAMMAR_DIALECTS = ["sqlite", "postgresql", "mysql", "mariadb", "mssql", "oracle"]
+# shapes whose two renderings differ by more than parentheses / flattening / negation identities and are judged live only:
+# true()/false() folding in and_/or_, the empty-IN expression (C07), COLLATE (binds tighter than || in every grammar while
+# SQLAlchemy gives it precedence 4; harmless because collation derivation propagates), SQLite's general IS <expr>
+_G_PROFILE = {"consts": False, "empty_in": False, "collate": False, "is_expr": False}
+# SQL Server and Oracle (< 23) have no boolean value type: predicates only in CASE WHEN / WHERE positions
+_G_PROFILE_NOBOOL = dict(_G_PROFILE, bool_values=False)
+
+
+def _dialect(name):
+    from sqlalchemy.dialects import mssql, mysql, oracle, postgresql, sqlite
+
+    if name == "mariadb":
+        from sqlalchemy.dialects.mysql import mariadb
+
+        return mariadb.MariaDBDialect()
+    return {"sqlite": sqlite, "postgresql": postgresql, "mysql": mysql, "mssql": mssql, "oracle": oracle}[name].dialect()
+
+
+def grammar_triggers(tree, nat, dname):
+    """confirmed grammar-tier root causes (classification / exclusion only)"""
+    out = []
+    for n in X.walk(tree):
+        if dname == "postgresql" and n[0] in ("ar",) and any(c[0] == "bnot" for c in (n[3], n[4])):
+            out.append("postgresql/bitwise-not-operand-ungrouped")
+        if dname in ("mysql", "mariadb") and n[0] == "bw" and n[2] == "bxor" and any(c[0] == "ar" and c[2] in ("mul", "truediv", "floordiv", "mod") for c in (n[3], n[4])):
+            out.append(dname + "/xor-binds-tighter-than-mul")
+    return sorted(set(out))
+
+
+def check_grammar(case, ctx):
+    import sqlalchemy as sa
+    from checks import _sqlparse as P
+
+    dname = case["dialect"]
+    tree = X.normalise(case["expr"])
+    pinned = bool(case.get("pinned"))
+    md = sa.MetaData()
+    t = X.make_table(md)
+    b = X.Builder(t)
+    with warnings.catch_warnings():
+        warnings.simplefilter("error", sa.exc.SADeprecationWarning)
+        nat = b.natural(tree)
+        exp = b.explicit(tree)
+    trig = triggers(tree, nat) + grammar_triggers(tree, nat, dname)
+    if trig and not pinned:
+        for tr in trig:
+            ctx.exclude(tr)
+        ctx.note(case, False, classes=["excluded"])
+        return
+    nontrivial, has_group, neg_rw, flattened = _nontrivial(tree, nat)
+    cls = ["dialect:" + dname, "root:" + tree[1]]
+    if has_group:
+        cls.append("auto-grouping")
+    if neg_rw:
+        cls.append("negation-rewrite")
+    ctx.note({"expr": tree, "dialect": dname}, nontrivial, classes=cls)
+
+    d = _dialect(dname)
+    spec = P.SPECS[dname]
+    forms = []
+    for el in (nat, sa.sql.elements.Grouping(exp)):
+        with warnings.catch_warnings():
+            warnings.simplefilter("ignore", sa.exc.SAWarning)  # e.g. "Datatype FLOAT does not support CAST on MySQL; the CAST will be skipped"
+            c = el.compile(dialect=d, compile_kwargs={"render_postcompile": True})
+        sql = str(c)
+        params = c.params
+        pos = list(c.positiontup) if c.positiontup else None
+
+        def resolve(key, params=params, pos=pos):
+            if isinstance(key, int):
+                return repr(params[pos[key]])
+            return repr(params[key])
+
+        forms.append((sql, c, resolve))
+    kind = trig[0] if trig else None
+    parsed = []
+    for which, (sql, c, resolve) in zip(("natural", "explicit"), forms):
+        try:
+            ast = P.parse(sql, spec)
+        except P.ParseError as e:
+            if which == "explicit":
+                from vf.api import HarnessError
+
+                raise HarnessError(f"grammar engine cannot parse the fully parenthesised {dname} rendering {sql!r}: {e}")
+            raise Violation(
+                "C01/" + (kind or dname + "/natural-rendering-unparseable"),
+                f"natural {dname} rendering is not parseable by the vendor grammar model ({e}): {sql!r}",
+                observed=sql, expected=forms[1][0],
+            )
+        parsed.append((ast, P.canon(ast, spec, resolve)))
+    if parsed[0][1] != parsed[1][1]:
+        raise Violation(
+            "C01/" + (kind or dname + "/parse-tree-mismatch"),
+            f"under the {dname} precedence table the natural rendering parses to a different tree than the fully parenthesised one: {forms[0][0]!r}",
+            observed={"natural": forms[0][0], "parsed_as": P.render(parsed[0][0])},
+            expected={"explicit": forms[1][0]},
+        )
+    if dname == "sqlite" and "POSTCOMPILE" in forms[0][0]:
+        # the sqlite IS [NOT] DISTINCT FROM visitor drops compile kwargs, so an IN below it is not expanded at compile time
+        ctx.info("sqlite-engine-validation-skipped-postcompile")
+    elif dname == "sqlite":
+        # engine validation: the parse tree (SQLite table) re-rendered fully parenthesised must evaluate like the original text
+        from vf import sautil
+
+        sql, c, _ = forms[0]
+        args = [c.params[n] for n in c.positiontup]
+        again = P.render(parsed[0][0])
+        eng = sautil.mem_engine()
+        try:
+            with eng.connect() as conn:
+                md.create_all(conn)
+                conn.execute(t.insert(), X.row_dicts(case["rows"]))
+                raw = conn.connection.dbapi_connection
+                res = []
+                for text in (sql, again):
+                    try:
+                        res.append(("ok", raw.execute(f"SELECT id, {text} FROM t ORDER BY id", args).fetchall()))
+                    except Exception as e:  # noqa: BLE001 - DBAPI error text is the observation
+                        res.append(("err", type(e).__name__, str(e)[:60]))
+                ctx.info("sqlite-engine-validated")
+                if res[0] != res[1] and not (res[0][0] == "err" and res[1][0] == "err"):
+                    from vf.api import HarnessError
+
+                    raise HarnessError(f"grammar engine disagrees with live SQLite: {sql!r} -> {again!r}: {res}")
+        finally:
+            eng.dispose()
+
+
+def _adapt(n, dname):
+    """operators the dialect documents as unsupported are replaced (CompileError by contract / no such operator):
+    oracle has no bitwise NOT / shifts, SQL Server (< 2022) has no << >>"""
+    if not isinstance(n, list):
+        return n
+    out = [_adapt(c, dname) for c in n]
+    if dname == "oracle" and out and out[0] == "bnot":
+        out[0] = "neg"
+    if dname in ("mssql", "oracle") and out and out[0] == "bw" and out[2] in ("lshift", "rshift"):
+        out[2] = "band"
+    return out
+
+
+@st.composite
+def _grammar_cases(draw, max_depth):
+    dname = draw(st.sampled_from(GRAMMAR_DIALECTS))
+    if dname in ("mssql", "oracle"):
+        tree = draw(X.trees(max_depth=max_depth, root_types=("i", "f", "s"), profile=_G_PROFILE_NOBOOL))
+    else:
+        tree = draw(X.trees(max_depth=max_depth, profile=_G_PROFILE))
+    tree = _adapt(tree, dname)
+    case = {"expr": tree, "dialect": dname}
+    if dname == "sqlite":
+        case["rows"] = draw(X.rows(max_rows=3, min_rows=1))
+    return case
+
+
 def subs(tier):
     md = 5 if tier == "quick" else 7
     return [
         Generated("live", check_live, strategy=_live_cases(md), quick=3000, thorough=300000),
+        Generated("grammar", check_grammar, strategy=_grammar_cases(md), quick=3000, thorough=300000),
     ]
